@@ -632,10 +632,11 @@ impl Kernel {
             abi::OP_ASYNC_CANCEL => {
                 let target = sqe.addr();
                 let found = self.rings.get(&fd).and_then(|r| r.find_inflight(target));
+                // One decision per cancel request consumed, used or not.
+                let win = self.cancel_decisions.pop_front().unwrap_or(true);
                 let res = match found {
                     None => -ENOENT,
                     Some(idx) => {
-                        let win = self.cancel_decisions.pop_front().unwrap_or(true);
                         if win {
                             let ring = self.rings.get_mut(&fd).unwrap();
                             ring.inflight[idx].cancelled = true;
@@ -863,7 +864,16 @@ unsafe fn sys_enter(fd: i32, to_submit: u32, min_complete: u32, flags: u32, arg:
                 }
             }
         }
-        let ret = if consumed > 0 { i64::from(consumed) } else { wait_result };
+        // A real kernel reports the number of submissions if there were any, else
+        // the outcome of the wait.  A wait that can never end is reported as
+        // -EDEADLK in any case (the real call would simply never return).
+        let ret = if wait_result == -i64::from(EDEADLK) {
+            wait_result
+        } else if consumed > 0 {
+            i64::from(consumed)
+        } else {
+            wait_result
+        };
         kernel().note(Note::Enter { ring: fd, to_submit, consumed, min_complete, flags, ret, timeout });
         Some(ret)
     })
